@@ -439,6 +439,11 @@ class AsyncPettingZooVecEnv(PettingZooVecEnv):
                 function(timeout)
         except mp.TimeoutError:
             terminate = True
+        except Exception:
+            # A worker failed during the pending call. _raise_if_errors() has logged the
+            # error, closed that worker's pipe and reset the state: carry on and shut
+            # the remaining workers down instead of leaving them alive.
+            pass
 
         if terminate:
             for process in self.processes:
